@@ -29,6 +29,7 @@ OPS = [
     "orthmid",
     "orthlast",
     "truncate",
+    "truncate_refused",
     "add",
     "addself",
     "addsame",
@@ -77,6 +78,10 @@ def make_initial(name, n, dim, precision, cap, seed):
             f.append(_t(t))
         f[0] = f[0] / np.sqrt(2)
         return MPS(f, orthogonality_center=None, **kw)
+    if name == "near_iso":
+        # a product state typed with six decimals: every factor is an isometry only up to ~1e-7 (not exactly, not grossly off)
+        a = {2: 0.707107, 3: 0.577350}[dim]
+        return MPS([_t(np.full((1, dim, 1), a)) for _ in range(n)], orthogonality_center=None, **kw)
     if name in ("thr_lo", "thr_hi"):
         # Schmidt spectrum (s0, s1) at every bond with s1 just below / above the truncation threshold `precision`:
         # sum_k s_k |k k ... k>.  Exact sums such as a + a move s1 across the threshold.
@@ -97,7 +102,7 @@ def make_initial(name, n, dim, precision, cap, seed):
     return m
 
 
-INITIALS = ["product", "ghz", "random", "random_canonical", "random_fat", "thr_lo", "thr_hi"]
+INITIALS = ["product", "ghz", "random", "random_canonical", "random_fat", "thr_lo", "thr_hi", "near_iso"]
 
 
 def fixed_other(n, dim, precision, cap, seed):
@@ -209,6 +214,20 @@ def run_history(n, dim, init, precision, cap, history, seed, mode, cache):
             trunc_tol = obj.precision * (n - 1)  # each of the n-1 bonds may discard up to precision (triangle inequality; sqrt(n-1) would assume orthogonal errors)
             if mode == "C10" and obj.orthogonality_center != 0:
                 raise Violation("truncate-centre", "truncate() did not leave the centre at 0")
+        elif op == "truncate_refused":
+            # error path: a truncation the object refuses (precision 0), the caller catches the error and keeps using the object
+            old_precision = obj.precision
+            obj.precision = 0.0
+            try:
+                obj.truncate()
+                refused = False
+            except (AssertionError, TypeError, ValueError, RuntimeError):
+                refused = True
+            finally:
+                obj.precision = old_precision
+            new_v = v
+            if not refused:
+                trunc_tol = 0.0
         elif op == "add":
             res = obj + other
             new_v = v + live[1][1]
